@@ -21,8 +21,9 @@ from formulaic.utils.sentinels import MISSING, MissingType
 from .errors import FormulaInvalidError
 from .model_matrix import ModelMatrix
 from .parser import DefaultFormulaParser
-from .parser.types import FormulaParser, OrderedSet, Term
+from .parser.types import Factor, FormulaParser, OrderedSet, Term
 from .utils.calculus import differentiate_term
+from .utils.code import sanitize_variable_names
 from .utils.deprecations import deprecated
 from .utils.structured import Structured
 from .utils.variables import Variable, get_expression_variables
@@ -534,11 +535,20 @@ class SimpleFormula(
         evaluation context rather than the data context.
         """
 
+        def get_factor_variables(factor: Factor) -> Iterable[Variable]:
+            if factor.eval_method is Factor.EvalMethod.LOOKUP:
+                return [Variable(factor.expr, roles=["value"])]
+            if factor.eval_method is Factor.EvalMethod.LITERAL:
+                return []
+            aliases: dict[str, str] = {}
+            expr = sanitize_variable_names(factor.expr, aliases, aliases)
+            return get_expression_variables(expr, {}, aliases)
+
         variables: list[Variable] = [
             variable
             for term in self.__terms
             for factor in term.factors
-            for variable in get_expression_variables(factor.expr, {})
+            for variable in get_factor_variables(factor)
             if "value" in variable.roles
         ]
 
